@@ -86,18 +86,18 @@ def views (t : Table) : Sexp :=
 
 def handle (req : Sexp) : Sexp :=
   match req with
-  | .list [.atom "file", k, nt, .list ls] =>
-    match kind? k, bool? nt, ls.mapM str? with
-    | some k, some nt, some ls =>
-      match parseFile k nt ls with
+  | .list [.atom "file", k, nt, nl, .list ls] =>
+    match kind? k, bool? nt, bool? nl, ls.mapM str? with
+    | some k, some nt, some nl, some ls =>
+      match parseFile k nt nl ls with
       | .error e => sErr e
       | .ok ts => .list (ts.map (fun t => .list [.atom "tbl", sMeta t.info, sFrame t.raw, views t]))
-    | _, _, _ => bad
+    | _, _, _, _ => bad
   | .list [.atom "renderbody", hw, .list ns, .list cs, .list rs] =>
     match hw.asNat?, ns.mapM str?, cs.mapM col?, rs.mapM (fun r => r.asList?.bind (·.mapM cell?)) with
     | some hw, some ns, some cs, some rs =>
       let t : RefTable := ⟨hw, ns, cs, rs⟩
-      .list [sStrs (renderBody t), Sexp.ofBool t.fits]
+      .list [sStrs (renderBody t), Sexp.ofBool t.fits, Sexp.ofBool t.fitsRecords]
     | _, _, _, _ => bad
   | .list [.atom "rendertitle", w, n, .atom m, d, g, .list nums] =>
     match w.asNat?, n.asNat?, optStr? d, optStr? g, nums.mapM Sexp.asNat? with
